@@ -24,7 +24,7 @@ OVERRIDE_CHECKS = {'C05/a': ['C05'], 'C07/b': ['C05', 'C07'], 'C10/b': ['C10', '
 def ids():
     out = []
     for i in range(1, 21):
-        for x in 'abcd':
+        for x in 'abcdef':
             out.append('C%02d/%s' % (i, x))
     return out
 
@@ -33,7 +33,10 @@ def source_dir(pid, x):
     # round 1 deliveries are a/b under /tmp/seeded, round 2 deliveries (a/b under /tmp/seeded2) are kept as c/d
     if x in 'ab':
         return os.path.join(SRC, pid, x)
-    return os.path.join('/tmp/seeded2', pid, {'c': 'a', 'd': 'b'}[x])
+    if x in 'cd':
+        return os.path.join('/tmp/seeded2', pid, {'c': 'a', 'd': 'b'}[x])
+    # round 3 deliveries (a/b under /tmp/seeded3) are kept as e/f
+    return os.path.join('/tmp/seeded3', pid, {'e': 'a', 'f': 'b'}[x])
 
 
 def collect():
@@ -60,7 +63,7 @@ def collect():
             'id': key, 'breaks_property': pid,
             'change': needs.get(key, ['', ''])[0],
             'needs_to_manifest': needs.get(key, ['', ''])[1],
-            'author': 'independent sub-agent given only the property text and a scratch worktree (round %d)' % (1 if x in 'ab' else 2),
+            'author': 'independent sub-agent given only the property text and a scratch worktree (round %d)' % (1 if x in 'ab' else 2 if x in 'cd' else 3),
             'rebased_onto_repaired_tree': rebased,
         })
         json.dump(meta, open(meta_p, 'w'), indent=1)
